@@ -27,6 +27,19 @@ CHECKS["C10"] = dict(
    note="Trusted: math/big and the 40-line decimal reference. Not asserted: integer-ness of 1.0-style numerals; the internal parser's behaviour on strings that are not RFC numerals.",
    design="4/C10")
 
+CHECKS["C17"] = dict(
+   category="exploration", engine="B small-scope exhaustive + BFS over reference PDA states",
+   technique="exhaustive enumeration of all file contents up to 7/8 bytes over 5 symbols x all positions against a reference renderer; BFS over reference PDA states for error positions",
+   text="(a) Every file content of length 0..7 (thorough 8) over {a,space,tab,LF,CR} with every position inside it is rendered through the public DocumentError API; no rendering may panic, and for consistently terminated files line number, left-trimmed text and caret column must equal a reference renderer; line-length families around the 200-byte cut. (b) For every reference-PDA state (nesting <= 4/6) and every string <= 4/5 symbols: the error position of the first dead byte and of an early end of input. (c) planted validation violations (with C01 generators).",
+   note="Trusted: the 100-line reference renderer. Not asserted: mixed LF/CR files' line numbers, caret inside leading blanks or on blank-only lines, positions for blank-only input.",
+   design="4/C17")
+CHECKS["C01"] = dict(
+   category="exploration", engine="B small-scope enumeration with reference shape matcher",
+   technique="exhaustive small-scope enumeration of (schema, config, document) triples against a three-valued reference validator; greedy counterexample reduction",
+   text="All rule-free schemas with <= 3 (thorough 4) nodes and every legal flag assignment x all documents with <= 3 (4) nodes (<= 4 (5) for schemas up to 2 nodes) in every key order x both key-optionality configurations, plus depth-5 spines with all documents within 2 structural edits of the example; the library verdict must equal the reference shape matcher, and optional-by-default must equal default with every unmarked key marked optional.",
+   note="Trusted: the reference validator ref/refv (written from the statement, stdlib only). Not asserted: duplicate keys, numerals other than 1 / 1.5.",
+   design="4/C01")
+
 NOT_YET = {
 }
 
